@@ -190,6 +190,9 @@ impl Session {
         let tok = if self.level > 0 {
             let (pushed, acc) = self.ref_pushed(|r| r.write(bs).unwrap());
             format!("GW{}:{}", hex(&pushed), acc)
+        } else if let Some(slices) = vectored {
+            // the model applies std's default itself (`firstNonEmpty`)
+            format!("V{}", slices.iter().map(|s| hex(s)).collect::<Vec<_>>().join(","))
         } else {
             format!("W{}", hex(bs))
         };
@@ -449,7 +452,7 @@ pub fn pred_c08(s: &Session) -> String {
                 accepted.extend_from_slice(&st.input[..*n]);
                 buffered = (buffered + n) % s.cap;
             }
-            Obs::Err if st.tok.starts_with('W') || st.tok == "F" => {
+            Obs::Err if st.tok.starts_with('W') || st.tok.starts_with('V') || st.tok == "F" => {
                 return format!("FAIL:{} failed on a live body at step {}", st.tok, i);
             }
             Obs::Ok => {
@@ -536,7 +539,7 @@ pub fn pred_c11(s: &Session) -> String {
         // was the writer still live (not Dead from an earlier error) at the abort?
         let live = !s.steps[..a].iter().any(|st| st.obs == Obs::Err);
         for st in &s.steps[a + 1..] {
-            let is_w = st.tok.starts_with('W') || st.tok.starts_with("GW");
+            let is_w = st.tok.starts_with('W') || st.tok.starts_with('V') || st.tok.starts_with("GW");
             let is_f = st.tok == "F" || st.tok.starts_with("GF");
             if (is_w || is_f) && st.obs != Obs::Err {
                 return format!("FAIL:{} succeeded after abort", st.tok);
@@ -581,7 +584,7 @@ pub fn pred_c11(s: &Session) -> String {
             if Some(i) == writer_drop_at {
                 break;
             }
-            let is_w = st.tok.starts_with('W');
+            let is_w = st.tok.starts_with('W') || st.tok.starts_with('V');
             let is_f = st.tok == "F";
             let is_gw = st.tok.starts_with("GW");
             let is_gf = st.tok.starts_with("GF");
